@@ -11,7 +11,10 @@ if ! git diff --quiet; then echo "/repo has uncommitted changes"; exit 2; fi
 PATCH="$DIR/patch.diff"; [ -f "$DIR/patch.rebased.diff" ] && PATCH="$DIR/patch.rebased.diff"
 git apply "$PATCH" || { echo "$NAME: patch does not apply to current /repo"; exit 2; }
 for P in $PROPS; do
+  # keep the evidence of the unchanged tree: the run against the seeded change must not replace it
+  cp -f /verif/evidence/$P.json /tmp/seedtest-evidence-$P.json 2>/dev/null
   out=$(cd /verif && ./check $P quick 2>&1); rc=$?
+  [ -f /tmp/seedtest-evidence-$P.json ] && mv -f /tmp/seedtest-evidence-$P.json /verif/evidence/$P.json
   v=$(echo "$out" | grep -c "^VIOLATION")
   sig=$(echo "$out" | grep "^violation signature" | head -2 | tr '\n' ' ')
   if [ $rc -eq 1 ] && [ $v -ge 1 ]; then echo "$NAME $P CAUGHT $sig"; elif [ $rc -eq 0 ]; then echo "$NAME $P MISSED"; else echo "$NAME $P INCONCLUSIVE rc=$rc $(echo "$out" | tail -3 | tr '\n' ' ')"; fi
